@@ -1,2 +1,611 @@
-From EO Require Import Prelude.Py Model.Spec Model.Elab Model.Ser Model.Deser Model.GenHarness.
-Theorem C01_placeholder : True. Proof. exact I. Qed.
+(* Property C01, stage A (specifications without chunked sections):
+   for a wire-unambiguous class (wire_ok) and a valid object (valid_obj), serializing with a fresh writer and deserializing the bytes
+   with a fresh reader gives back the object field by field, consumes exactly the bytes written, and byte_size is that count.
+   Proofs: Proofs/RoundTrip.v.  Side conditions: Model/WireOk.v (the conditions marked [C01-A1..A9] were found missing while
+   proving the theorem; each has a necessity witness below, checked against the ORIGINAL definitions kept in Module Old). *)
+From EO Require Import Prelude.Py Prelude.Corr Model.Writer Model.Reader Model.Spec Model.Ser Model.Deser Model.Enc Model.ValidDecl
+  Model.Limits Model.Cp1252 Model.WireOk Model.GenHarness Proofs.RoundTrip.
+Open Scope Z_scope.
+Set Default Timeout 60.
+
+(* full statement kept visible; stage A = specifications without chunked sections
+   (wire_ok rejects ESetMode / EBreak / delimited arrays) *)
+Theorem C01_roundtrip_nonchunked : forall E cls v w,
+  wire_ok E cls = true -> valid_obj (S (List.length E)) E cls v = true ->
+  serialize E cls v false = (w, Ok tt) ->
+  exists r v', deserialize E cls (wdata w) false = (r, Ok v') /\
+               strip_bs v' = v /\ rpos r = zlen (wdata w) /\ top_byte_size v' = Some (zlen (wdata w)).
+Proof. exact roundtrip_nonchunked. Qed.
+
+(* valid objects of wire_ok classes do serialize *)
+Theorem C01_valid_serializes : forall E cls v,
+  wire_ok E cls = true -> valid_obj (S (List.length E)) E cls v = true ->
+  exists w, serialize E cls v false = (w, Ok tt).
+Proof. exact valid_serializes. Qed.
+
+Corollary C01_round_ok : forall E cls v,
+  wire_ok E cls = true -> valid_obj (S (List.length E)) E cls v = true -> round_ok E cls v = true.
+Proof. exact round_ok_holds. Qed.
+
+(* the frame form the induction runs on: the encoding may sit anywhere inside a non-chunked reader's data, and nested classes
+   that do not end the message (last = false) may be followed by arbitrary bytes *)
+Theorem C01_roundtrip_framed : forall E fuel cls last v out r d p post,
+  wire_class fuel E cls last = true -> valid_obj fuel E cls v = true -> enc_struct fuel E cls v false = Some out ->
+  (last = true -> post = []) -> nc r d p -> frame d p out post ->
+  exists r' v', deser_struct fuel E cls r = (r', Ok v') /\ strip_bs v' = v /\ nc r' d (p + zlen out) /\
+                top_byte_size v' = Some (zlen out).
+Proof. exact rt_struct. Qed.
+
+Print Assumptions C01_roundtrip_nonchunked.
+Print Assumptions C01_valid_serializes.
+Print Assumptions C01_round_ok.
+Print Assumptions C01_roundtrip_framed.
+
+(* ====================================================================================================== *)
+(* a concrete specification exercising every construct of stage A                                         *)
+(* ====================================================================================================== *)
+Open Scope string_scope.
+Definition fld n ty len := mkField (Some n) ty len false false true None 0.
+Definition ofld n ty len first := mkField (Some n) ty len false true first None 0.
+Definition Item := mkSDef "Item" [EField (fld "id" (EInt TShort) LNone); EField (fld "amount" (EInt TChar) LNone)].
+Definition Coord := mkSDef "Coord" [EField (fld "x" (EInt TChar) LNone); EField (fld "y" (EInt TChar) LNone)].
+Definition KA := mkSDef "Pkt.KindDataA"
+  [EField (fld "gold" (EInt TInt) LNone); EField (mkField (Some "tag") (EStr true) (LLit 4) true false true None 0)].
+Definition MD := mkSDef "Pkt.ModeDataDefault" [EField (fld "flag" (EBool TChar) LNone)].
+Definition Pkt := mkSDef "Pkt"
+  [ ELength "name_length" TChar 1 false true (Some "name");                                          (* length prefix, offset 1 *)
+    EField (mkField (Some "name") (EStr false) (LRef "name_length") false false true None 253);      (* length-prefixed string *)
+    EField (mkField None (EInt TChar) LNone false false true (Some "7") 0);                          (* unnamed hardcoded field *)
+    EField (fld "kind" (EEnum "Kind" TChar) LNone);
+    EField (fld "mode" (EInt TChar) LNone);
+    EArray (fld "items" (EStruct "Item") (LLit 2)) false false ACExpr;                              (* literal-length array of nested structs *)
+    ESwitch "kind" [mkCase (CKValue 1) (Some "Pkt.KindDataA"); mkCase (CKValue 2) None];             (* switch on an enum, no default *)
+    ESwitch "mode" [mkCase (CKValue 0) None; mkCase CKDefault (Some "Pkt.ModeDataDefault")];         (* switch with a default *)
+    EField (ofld "extra" (EInt TChar) LNone true);                                                    (* optional tail ... *)
+    EArray (ofld "coords" (EStruct "Coord") LNone false) false false (ACRemaining 2) ].              (* ... ending in an implied-length array *)
+Definition Env := [Item; Coord; KA; MD; Pkt].
+Definition item a b := VObj "Item" [("id", VInt a); ("amount", VInt b)].
+Definition coord a b := VObj "Coord" [("x", VInt a); ("y", VInt b)].
+(* everything present; kind 1 selects case data A; mode 7 is not listed and selects the default *)
+Definition obj1 := VObj "Pkt" [("name", VStr [72;105;255]); ("kind", VInt 1); ("mode", VInt 7);
+   ("items", VList [item 1000 3; item 0 252]);
+   ("kind_data", VObj "Pkt.KindDataA" [("gold", VInt 4097152080); ("tag", VStr [65;66])]);
+   ("mode_data", VObj "Pkt.ModeDataDefault" [("flag", VBool true)]);
+   ("extra", VInt 9); ("coords", VList [coord 1 2; coord 3 4; coord 5 6])].
+(* unrecognised ordinal 77: no case, no data; mode 0: empty case; optional tail half present *)
+Definition obj2 := VObj "Pkt" [("name", VStr [90]); ("kind", VInt 77); ("mode", VInt 0);
+   ("items", VList [item 1 1; item 2 2]); ("kind_data", VNone); ("mode_data", VNone); ("extra", VInt 0); ("coords", VNone)].
+(* kind 2: the empty case; optional tail absent *)
+Definition obj3 := VObj "Pkt" [("name", VStr [65]); ("kind", VInt 2); ("mode", VInt 1);
+   ("items", VList [item 1 1; item 2 2]); ("kind_data", VNone);
+   ("mode_data", VObj "Pkt.ModeDataDefault" [("flag", VBool false)]); ("extra", VNone); ("coords", VNone)].
+
+Example ex_wire_ok : wire_ok Env "Pkt" = true. Proof. vm_compute. reflexivity. Qed.
+Example ex_valid1 : valid_obj 6 Env "Pkt" obj1 = true. Proof. vm_compute. reflexivity. Qed.
+Example ex_valid2 : valid_obj 6 Env "Pkt" obj2 = true. Proof. vm_compute. reflexivity. Qed.
+Example ex_valid3 : valid_obj 6 Env "Pkt" obj3 = true. Proof. vm_compute. reflexivity. Qed.
+Example ex_round1 : round_ok Env "Pkt" obj1 = true. Proof. vm_compute. reflexivity. Qed.
+Example ex_round2 : round_ok Env "Pkt" obj2 = true. Proof. vm_compute. reflexivity. Qed.
+Example ex_round3 : round_ok Env "Pkt" obj3 = true. Proof. vm_compute. reflexivity. Qed.
+Example ex_bytes1 : run_ser Env "Pkt" obj1 false =
+  (Ok tt, [3; 72; 105; 255; 8; 2; 8; 242; 4; 4; 1; 254; 253; 253; 253; 253; 253; 255; 255; 47; 94; 2; 10; 2; 3; 4; 5; 6; 7], false).
+Proof. vm_compute. reflexivity. Qed.
+(* the theorem, instantiated *)
+Example ex_by_theorem : round_ok Env "Pkt" obj1 = true.
+Proof. apply C01_round_ok; vm_compute; reflexivity. Qed.
+
+(* an implied-length array of progress-making structs read by the `while remaining > 0` loop (ACWhile), and a trailing blob *)
+Definition Line := mkSDef "Line" [ELength "n" TChar 0 false true (Some "text"); EField (mkField (Some "text") (EStr true) (LRef "n") false false true None 252)].
+Definition Book := mkSDef "Book" [EField (fld "id" (EInt TThree) LNone); EArray (fld "lines" (EStruct "Line") LNone) false false ACWhile].
+Definition Blob := mkSDef "Blob" [EField (fld "tag" (EInt TByte) LNone); EField (fld "rest" EBlob LNone)].
+Definition EnvB := [Line; Book; Blob].
+Definition line s := VObj "Line" [("text", VStr s)].
+Definition book := VObj "Book" [("id", VInt 16194276); ("lines", VList [line [104;105]; line []; line [33;34;35]])].
+Example ex_book : wire_ok EnvB "Book" = true /\ valid_obj 4 EnvB "Book" book = true /\ round_ok EnvB "Book" book = true.
+Proof. vm_compute. auto. Qed.
+Example ex_blob : let v := VObj "Blob" [("tag", VInt 255); ("rest", VBytes [0; 255; 254; 1])] in
+  wire_ok EnvB "Blob" = true /\ valid_obj 4 EnvB "Blob" v = true /\ round_ok EnvB "Blob" v = true.
+Proof. vm_compute. auto. Qed.
+
+(* ====================================================================================================== *)
+(* necessity of valid_obj's conditions (each object breaks exactly one of them)                           *)
+(* ====================================================================================================== *)
+Definition Opt := mkSDef "Opt" [EField (fld "a" (EInt TChar) LNone); EField (ofld "s" (EStr false) LNone true)].
+(* a present-but-empty optional string reads back as absent *)
+Example nec_empty_optional : let v := VObj "Opt" [("a", VInt 1); ("s", VStr [])] in
+  wire_ok [Opt] "Opt" = true /\ valid_obj 2 [Opt] "Opt" v = false /\ round_ok [Opt] "Opt" v = false /\
+  valid_obj 2 [Opt] "Opt" (VObj "Opt" [("a", VInt 1); ("s", VStr [65])]) = true.
+Proof. vm_compute. auto. Qed.
+Definition EncS := mkSDef "EncS" [EField (fld "s" (EStr true) LNone)].
+(* '~' (126) in an encoded string: encode_string / decode_string do not invert each other on it *)
+Example nec_tilde : let v := VObj "EncS" [("s", VStr [65; 126; 66])] in
+  wire_ok [EncS] "EncS" = true /\ valid_obj 2 [EncS] "EncS" v = false /\ round_ok [EncS] "EncS" v = false /\
+  valid_obj 2 [EncS] "EncS" (VObj "EncS" [("s", VStr [65; 125; 66])]) = true.
+Proof. vm_compute. auto. Qed.
+Definition PadS := mkSDef "PadS" [EField (mkField (Some "s") (EStr false) (LLit 5) true false true None 0)].
+(* U+00FF in a padded string is taken for the start of the padding *)
+Example nec_ff_padded : let v := VObj "PadS" [("s", VStr [65; 255; 66])] in
+  wire_ok [PadS] "PadS" = true /\ valid_obj 2 [PadS] "PadS" v = false /\ round_ok [PadS] "PadS" v = false /\
+  valid_obj 2 [PadS] "PadS" (VObj "PadS" [("s", VStr [65; 254; 66])]) = true.
+Proof. vm_compute. auto. Qed.
+(* a character windows-1252 cannot carry (U+0100) comes back as '?' *)
+Example nec_unencodable : let v := VObj "PadS" [("s", VStr [256])] in
+  valid_obj 2 [PadS] "PadS" v = false /\ round_ok [PadS] "PadS" v = false.
+Proof. vm_compute. auto. Qed.
+(* a number at the type's limit is refused by the writer *)
+Example nec_range : let v := VObj "Opt" [("a", VInt 253); ("s", VNone)] in
+  valid_obj 2 [Opt] "Opt" v = false /\ round_ok [Opt] "Opt" v = false.
+Proof. vm_compute. auto. Qed.
+(* an optional present after an absent one *)
+Definition Opt2 := mkSDef "Opt2" [EField (ofld "a" (EInt TChar) LNone true); EField (ofld "b" (EInt TChar) LNone false)].
+Example nec_optional_order : let v := VObj "Opt2" [("a", VNone); ("b", VInt 3)] in
+  wire_ok [Opt2] "Opt2" = true /\ valid_obj 2 [Opt2] "Opt2" v = false /\ round_ok [Opt2] "Opt2" v = false.
+Proof. vm_compute. auto. Qed.
+
+(* ====================================================================================================== *)
+(* the original definitions of Model/WireOk.v, verbatim, to check the witnesses of the added conditions   *)
+(* ====================================================================================================== *)
+Close Scope string_scope.
+Module Old.
+(* ---------------- static sizes ---------------- *)
+Section Size.
+  Variable size_cls : string -> option Z.
+  Definition ty_size (ty : etype) (len : elen) : option Z :=
+    match ty with
+    | EInt t | EBool t | EEnum _ t => Some (itype_size t)
+    | EStr _ => match len with LLit n => Some n | _ => None end
+    | EBlob => None
+    | EStruct n => size_cls n
+    end.
+  Definition instr_size (i : einstr) : option Z :=
+    match i with
+    | EField f => if f_optional f then None else ty_size (f_ty f) (f_len f)
+    | EArray f false _ _ =>
+      if f_optional f then None else
+      match f_len f, ty_size (f_ty f) LNone with LLit n, Some s => Some (n * s) | _, _ => None end
+    | ELength _ t _ false _ _ => Some (itype_size t)
+    | _ => None
+    end.
+  Fixpoint body_size (is : list einstr) : option Z :=
+    match is with
+    | [] => Some 0
+    | i :: t => match instr_size i, body_size t with Some a, Some b => Some (a + b) | _, _ => None end
+    end.
+End Size.
+Fixpoint size_of (fuel : nat) (E : env) (cls : string) : option Z :=
+  match fuel with
+  | O => None
+  | S f => match env_find E cls with
+           | Some d => match sd_body d with
+                       | [EDummy ty _ false] => ty_size (fun _ => None) ty LNone
+                       | b => body_size (size_of f E) b end
+           | None => None end
+  end.
+
+(* ---------------- wire-unambiguity (no chunked sections) ---------------- *)
+Definition is_optional_instr (i : einstr) : bool :=
+  match i with EField f | EArray f _ _ _ => f_optional f | _ => false end.
+Definition only_optionals (is : list einstr) : bool := forallb is_optional_instr is.
+
+Section Wire.
+  Variable E : env.
+  Variable sizef : string -> option Z.
+  (* wire_cls n last: class n is unambiguous when [last] says whether nothing follows it in the whole message *)
+  Variable wire_cls : string -> bool -> bool.
+  (* every object of class n occupies at least one byte, and its reads cannot come back empty-handed *)
+  Variable progress_cls : string -> bool.
+
+  (* a value of this type is self-delimiting given its length expression *)
+  Definition closed_ty (ty : etype) (len : elen) : bool :=
+    match ty with
+    | EInt _ | EBool _ | EEnum _ _ => true
+    | EStr _ => match len with LNone => false | _ => true end
+    | EBlob => false
+    | EStruct n => wire_cls n false
+    end.
+  Definition elem_size (ty : etype) : option Z := ty_size sizef ty LNone.
+
+  Fixpoint wire_instrs (last : bool) (lens : list string) (is : list einstr) : bool :=
+    match is with
+    | [] => true
+    | i :: t =>
+      let final := last && match t with [] => true | _ => false end in   (* nothing at all follows this instruction *)
+      match i with
+      | EField f =>
+        (match f_len f with LRef l => mem_str l lens | _ => true end) &&
+        (match f_name f, f_hard f with None, None => false | _, _ => true end) &&
+        (if f_optional f then
+           (* optional: presence is "data remains": optionals last, in a class that ends the message *)
+           last && only_optionals t &&
+           match f_name f with Some _ => true | None => false end &&
+           (closed_ty (f_ty f) (f_len f) || final) &&
+           match f_ty f with EStruct n => wire_cls n final | _ => true end
+         else
+           match f_ty f with
+           | EStruct n => wire_cls n final
+           | _ => closed_ty (f_ty f) (f_len f) || final
+           end) &&
+        wire_instrs last lens t
+      | EArray f delimited _ count =>
+        negb delimited &&
+        (match f_name f with Some _ => true | None => false end) &&
+        (if f_optional f then last && only_optionals t else true) &&
+        (match f_ty f with EStruct n => wire_cls n false | ty => closed_ty ty LNone end) &&
+        (match count with
+         | ACExpr => match f_len f with LRef l => mem_str l lens | LLit n => 0 <=? n | LNone => false end
+         | ACRemaining sz => final && (0 <? sz) && match elem_size (f_ty f) with Some s => s =? sz | None => false end
+         | ACWhile => final && match f_ty f with EStruct n => progress_cls n | _ => false end
+         end) &&
+        wire_instrs last lens t
+      | ELength name _ _ optional _ ref_by =>
+        negb optional && negb (mem_str name lens) &&
+        (match ref_by with Some _ => true | None => false end) &&
+        wire_instrs last (name :: lens) t
+      | EDummy _ _ _ => false                      (* a dummy is only allowed as the sole instruction: see wire_body *)
+      | ESwitch field cases =>
+        forallb (fun c => match c_cls c with Some cls => wire_cls cls final | None => true end) cases &&
+        wire_instrs last lens t
+      | ESetMode _ => false
+      | EBreak => false
+      end
+    end.
+
+  Definition wire_body (last : bool) (is : list einstr) : bool :=
+    match is with
+    | [EDummy ty lit false] => match ty with EInt _ | EBool _ => true | EStr _ => false | _ => false end
+    | _ => wire_instrs last [] is
+    end.
+
+  (* the first thing the class writes is a required fixed-size scalar: it always makes progress *)
+  Definition progress_body (is : list einstr) : bool :=
+    match is with
+    | EField f :: _ => negb (f_optional f) && match f_ty f with EInt _ | EBool _ | EEnum _ _ => true | EStruct n => progress_cls n | _ => false end
+    | ELength _ _ _ false _ _ :: _ => true
+    | [EDummy (EInt _) _ false] => true
+    | _ => false
+    end.
+End Wire.
+
+Fixpoint progress_class (fuel : nat) (E : env) (cls : string) : bool :=
+  match fuel with
+  | O => false
+  | S f => match env_find E cls with Some d => progress_body (progress_class f E) (sd_body d) | None => false end
+  end.
+
+Fixpoint wire_class (fuel : nat) (E : env) (cls : string) (last : bool) : bool :=
+  match fuel with
+  | O => false
+  | S f => match env_find E cls with
+           | Some d => wire_body (size_of (S (List.length E)) E) (wire_class f E) (progress_class (S (List.length E)) E) last (sd_body d)
+           | None => false
+           end
+  end.
+Definition wire_ok (E : env) (cls : string) : bool := wire_class (S (List.length E)) E cls true.
+
+(* ---------------- objects the format can carry ---------------- *)
+Definition no_255 (s : list Z) : bool := forallb (fun c => negb (c =? 255)) s.
+Definition no_126 (s : list Z) : bool := forallb (fun c => negb (c =? 126)) s.
+
+Section Obj.
+  Variable vo : string -> value -> bool.
+  Definition obj_value (ty : etype) (len : elen) (padded : bool) (v : value) : bool :=
+    match ty, v with
+    | EInt t, VInt z => (0 <=? z) && (z <=? itype_max t)
+    | EBool _, VBool _ => true
+    | EEnum _ t, VInt z => (0 <=? z) && (z <=? itype_max t)
+    | EStr enc, VStr s => forallb cp_encodable s && (negb (padded && match len with LNone => false | _ => true end) || forallb (fun c => negb (c =? 255)) s)
+                          && (negb enc || forallb (fun c => negb (c =? 126)) s)
+    | EBlob, VBytes b => bytes_okb b
+    | EStruct n, x => vo n x
+    | _, _ => false
+    end.
+  (* the encoding of a present optional value must not be empty (an empty optional tail reads back as absent) *)
+  Definition nonempty_value (v : value) : bool :=
+    match v with VStr s => negb (zlen s =? 0) | VBytes b => negb (zlen b =? 0) | VList l => negb (zlen l =? 0) | _ => true end.
+
+  Fixpoint obj_instrs (flds : list (string * value)) (is : list einstr) (rmo : bool) : bool :=
+    match is with
+    | [] => true
+    | i :: t =>
+      match i with
+      | EField f =>
+        match f_name f with
+        | None => obj_instrs flds t rmo
+        | Some name =>
+          match assoc flds name with
+          | None => false
+          | Some v =>
+            if f_optional f then
+              (if is_none v then obj_instrs flds t true
+               else negb rmo && nonempty_value v && valid_len f v && obj_value (f_ty f) (f_len f) (f_padded f) v && obj_instrs flds t rmo)
+            else
+              (match f_hard f with
+               | Some lit => match lit_value (f_ty f) lit with Ok lv => true | Err _ => false end
+               | None => true end) &&
+              valid_len f v && obj_value (f_ty f) (f_len f) (f_padded f) v && obj_instrs flds t rmo
+          end
+        end
+      | EArray f _ _ _ =>
+        match f_name f with
+        | None => false
+        | Some name =>
+          match assoc flds name with
+          | Some (VList elems) =>
+            (negb (f_optional f) || (negb rmo && nonempty_value (VList elems))) &&
+            valid_len f (VList elems) && forallb (obj_value (f_ty f) LNone false) elems && obj_instrs flds t rmo
+          | Some VNone => f_optional f && obj_instrs flds t true
+          | _ => false
+          end
+        end
+      | ELength _ lty off _ _ ref_by =>
+        match ref_by with
+        | Some fr => match assoc flds fr with
+                     | Some fv => match py_len fv with Some l => (0 <=? l - off) && (l - off <=? itype_max lty) | None => false end
+                     | None => false end
+        | None => false
+        end && obj_instrs flds t rmo
+      | ESwitch field cases =>
+        match assoc flds field, assoc flds (field ++ "_data")%string with
+        | Some (VInt z), Some dv =>
+          match find_case cases (Some z) with
+          | None => is_none dv
+          | Some c => match c_cls c with
+                      | None => is_none dv
+                      | Some cls => match obj_class dv with Some c' => String.eqb c' cls && vo cls dv | None => false end
+                      end
+          end
+        | _, _ => false
+        end && obj_instrs flds t rmo
+      | _ => obj_instrs flds t rmo
+      end
+    end.
+End Obj.
+
+Fixpoint valid_obj (fuel : nat) (E : env) (cls : string) (v : value) : bool :=
+  match fuel with
+  | O => false
+  | S f => match env_find E cls, v with
+           | Some d, VObj c flds => String.eqb c cls && obj_instrs (valid_obj f E) flds (sd_body d) false
+           | _, _ => false
+           end
+  end.
+
+(* what deserialize builds for an object: its public fields (hardcoded named fields hold their literal) plus byte_size *)
+Definition public_fields (v : value) : list (string * value) := match v with VObj _ f => f | _ => [] end.
+End Old.
+Open Scope string_scope.
+
+(* ====================================================================================================== *)
+(* necessity of the conditions added to Model/WireOk.v: each witness satisfies the ORIGINAL wire_ok and  *)
+(* valid_obj (Module Old), is refused by the new ones, and does not round-trip in the model                *)
+(* ====================================================================================================== *)
+Definition witness (E : env) (cls : string) (v : value) : bool :=
+  Old.wire_ok E cls && Old.valid_obj (S (List.length E)) E cls v &&
+  negb (wire_ok E cls && valid_obj (S (List.length E)) E cls v) && negb (round_ok E cls v).
+Definition sfld n len maxlen := mkField (Some n) (EStr false) len false false true None maxlen.
+
+(* [C01-A1] bound names are distinct.  (a) the same public name twice: the object's second slot is unreachable *)
+Definition DupF := mkSDef "DupF" [EField (fld "a" (EInt TChar) LNone); EField (fld "a" (EInt TChar) LNone)].
+Example A1_dup_field_necessary : witness [DupF] "DupF" (VObj "DupF" [("a", VInt 1); ("a", VInt 2)]) = true.
+Proof. vm_compute. reflexivity. Qed.
+(* (b) a length field named like an earlier field: the deserializer's local is rebound *)
+Definition LenClash := mkSDef "LenClash"
+  [EField (fld "n" (EInt TChar) LNone); ELength "n" TChar 0 false true (Some "s"); EField (sfld "s" (LRef "n") 252)].
+Example A1_length_name_necessary : witness [LenClash] "LenClash" (VObj "LenClash" [("n", VInt 5); ("s", VStr [97; 98])]) = true.
+Proof. vm_compute. reflexivity. Qed.
+
+(* [C01-A2] a field called byte_size collides with the size entry of the deserialized object *)
+Definition BS := mkSDef "BS" [EField (fld "byte_size" (EInt TChar) LNone)].
+Example A2_byte_size_necessary : witness [BS] "BS" (VObj "BS" [("byte_size", VInt 3)]) = true.
+Proof. vm_compute. reflexivity. Qed.
+
+(* [C01-A3] a length reference must name a length field whose slot is assigned from this very field.
+   (a) two fields share one length field (the generator rejects this; the elaborated form can express it) *)
+Definition TwoRefs := mkSDef "TwoRefs"
+  [ELength "n" TChar 0 false true (Some "b"); EField (sfld "a" (LRef "n") 252); EField (sfld "b" (LRef "n") 252)].
+Example A3_shared_length_necessary : witness [TwoRefs] "TwoRefs" (VObj "TwoRefs" [("a", VStr [120; 121]); ("b", VStr [122])]) = true.
+Proof. vm_compute. reflexivity. Qed.
+(* (b) an unnamed hardcoded string with a length reference is written whole but read with that length *)
+Definition UnnamedRef := mkSDef "UnnamedRef"
+  [ELength "n" TChar 0 false true (Some "b");
+   EField (mkField None (EStr false) (LRef "n") false false true (Some "ab") 252); EField (sfld "b" (LRef "n") 252)].
+Example A3_unnamed_ref_necessary : witness [UnnamedRef] "UnnamedRef" (VObj "UnnamedRef" [("b", VStr [120; 121; 122])]) = true.
+Proof. vm_compute. reflexivity. Qed.
+
+(* [C01-A4] the field a switch inspects must have been read before the switch *)
+Definition CaseC := mkSDef "Sw.KDataC" [EField (fld "x" (EInt TChar) LNone)].
+Definition Sw := mkSDef "Sw" [ESwitch "k" [mkCase (CKValue 1) (Some "Sw.KDataC")]; EField (fld "k" (EInt TChar) LNone)].
+Example A4_switch_field_necessary :
+  witness [CaseC; Sw] "Sw" (VObj "Sw" [("k_data", VObj "Sw.KDataC" [("x", VInt 9)]); ("k", VInt 1)]) = true.
+Proof. vm_compute. reflexivity. Qed.
+
+(* [C01-A5] a present optional struct must occupy at least one byte *)
+Definition Empty := mkSDef "Empty" [].
+Definition Holder := mkSDef "Holder" [EField (fld "a" (EInt TChar) LNone); EField (ofld "e" (EStruct "Empty") LNone true)].
+Example A5_optional_empty_struct_necessary :
+  witness [Empty; Holder] "Holder" (VObj "Holder" [("a", VInt 1); ("e", VObj "Empty" [])]) = true.
+Proof. vm_compute. reflexivity. Qed.
+(* the same for the elements of an optional array *)
+Definition HolderA := mkSDef "HolderA"
+  [ELength "n" TChar 0 false true (Some "es");
+   EArray (mkField (Some "es") (EStruct "Empty") (LRef "n") false true true None 252) false false ACExpr].
+Example A5_optional_empty_elements_necessary :
+  witness [Empty; HolderA] "HolderA" (VObj "HolderA" [("es", VList [VObj "Empty" []])]) = true.
+Proof. vm_compute. reflexivity. Qed.
+
+(* [C01-A6] the literal of an unnamed hardcoded field / of a dummy must have an encoding *)
+Definition BadLit := mkSDef "BadLit" [EField (mkField None (EInt TChar) LNone false false true (Some "300") 0); EField (fld "a" (EInt TChar) LNone)].
+Example A6_unnamed_literal_necessary : witness [BadLit] "BadLit" (VObj "BadLit" [("a", VInt 1)]) = true.
+Proof. vm_compute. reflexivity. Qed.
+Definition BadDummy := mkSDef "BadDummy" [EDummy (EInt TChar) "300" false].
+Example A6_dummy_literal_necessary : witness [BadDummy] "BadDummy" (VObj "BadDummy" []) = true.
+Proof. vm_compute. reflexivity. Qed.
+
+(* [C01-A7] a hardcoded named field holds its literal: deserialize rebuilds it from the literal *)
+Definition Hard := mkSDef "Hard" [EField (mkField (Some "x") (EInt TChar) LNone false false true (Some "5") 0)].
+Example A7_hardcoded_value_necessary : witness [Hard] "Hard" (VObj "Hard" [("x", VInt 6)]) = true.
+Proof. vm_compute. reflexivity. Qed.
+Example A7_hardcoded_value_ok : let v := VObj "Hard" [("x", VInt 5)] in
+  wire_ok [Hard] "Hard" = true /\ valid_obj 2 [Hard] "Hard" v = true /\ round_ok [Hard] "Hard" v = true.
+Proof. vm_compute. auto. Qed.
+
+(* [C01-A8] the object holds exactly the public fields, in declaration order *)
+Definition Plain := mkSDef "Plain" [EField (fld "a" (EInt TChar) LNone); EField (fld "b" (EInt TChar) LNone)].
+Example A8_extra_field_necessary : witness [Plain] "Plain" (VObj "Plain" [("a", VInt 1); ("b", VInt 2); ("zzz", VInt 3)]) = true.
+Proof. vm_compute. reflexivity. Qed.
+Example A8_field_order_necessary : witness [Plain] "Plain" (VObj "Plain" [("b", VInt 2); ("a", VInt 1)]) = true.
+Proof. vm_compute. reflexivity. Qed.
+
+(* [C01-A9] an array with a literal length holds exactly that many elements (whatever its `padded` flag says) *)
+Definition PadArr := mkSDef "PadArr" [EArray (mkField (Some "xs") (EInt TChar) (LLit 2) true false true None 0) false false ACExpr].
+Example A9_array_length_necessary : witness [PadArr] "PadArr" (VObj "PadArr" [("xs", VList [VInt 1])]) = true.
+Proof. vm_compute. reflexivity. Qed.
+
+(* ====================================================================================================== *)
+(* the two refactorings (sole_dummy instead of deep list patterns) did not change size_of / progress_class *)
+(* ====================================================================================================== *)
+Lemma body_size_same s1 s2 : (forall n, s1 n = s2 n) -> forall is, Old.body_size s1 is = body_size s2 is.
+Proof.
+  intros Hs. induction is as [|i t IHt]; [reflexivity|]. cbn [Old.body_size body_size]. rewrite IHt.
+  assert (Hi : Old.instr_size s1 i = instr_size s2 i).
+  { assert (Ht : forall ty len, Old.ty_size s1 ty len = ty_size s2 ty len) by (intros ty len; destruct ty; cbn; auto).
+    destruct i; cbn [Old.instr_size instr_size]; rewrite ?Ht; reflexivity. }
+  rewrite Hi. reflexivity.
+Qed.
+
+Lemma size_of_refactor E : forall fuel cls, Old.size_of fuel E cls = size_of fuel E cls.
+Proof.
+  induction fuel as [|fuel IHf]; intros cls; [reflexivity|]. cbn [Old.size_of size_of].
+  destruct (env_find E cls) as [d|]; [|reflexivity]. pose proof (body_size_same _ _ IHf (sd_body d)) as Hb.
+  unfold sole_dummy. destruct (sd_body d) as [|i [|j t]]; try exact Hb; destruct i; try exact Hb;
+    destruct guarded; try exact Hb. destruct ty; reflexivity.
+Qed.
+
+Lemma progress_class_refactor E : forall fuel cls, Old.progress_class fuel E cls = progress_class fuel E cls.
+Proof.
+  induction fuel as [|fuel IHf]; intros cls; [reflexivity|]. cbn [Old.progress_class progress_class].
+  destruct (env_find E cls) as [d|]; [|reflexivity]. unfold Old.progress_body, progress_body, sole_dummy.
+  destruct (sd_body d) as [|i [|j t]]; try reflexivity; destruct i; try reflexivity;
+    try (destruct (f_ty f); rewrite ?IHf; reflexivity); try (destruct guarded; destruct ty; reflexivity).
+Qed.
+
+(* ====================================================================================================== *)
+(* the new side conditions only ADD to the original ones: whatever they accept, the originals accepted    *)
+(* ====================================================================================================== *)
+Lemma ref_ok_mem l n lens : ref_ok l n lens = true -> mem_str l (map fst lens) = true.
+Proof.
+  intros H. apply ref_ok_In in H. apply mem_str_In. apply in_map_iff. exists (l, n). split; [reflexivity | exact H].
+Qed.
+
+Section Stronger.
+  Variables (sz : string -> option Z) (wc wc' : string -> bool -> bool) (pc : string -> bool).
+  Hypothesis Hwc : forall n l, wc n l = true -> wc' n l = true.
+
+  Lemma closed_ty_mono ty len b : closed_ty wc ty len || b = true -> Old.closed_ty wc' ty len || b = true.
+  Proof.
+    intros H. apply orb_true_iff in H as [H|H]; [|rewrite H; apply orb_true_r]. apply orb_true_iff. left.
+    destruct ty; try exact H. apply Hwc. exact H.
+  Qed.
+
+  Lemma wire_instrs_stronger : forall is last lens pubs,
+    wire_instrs sz wc pc last lens pubs is = true -> Old.wire_instrs sz wc' pc last (map fst lens) is = true.
+  Proof.
+    induction is as [|i t IHt]; intros last lens pubs W; [reflexivity|].
+    destruct i as [f|f dl tr cnt|name lt off opt of rb|ty lit g|fld cs|b|]; cbn [wire_instrs Old.wire_instrs] in *; try discriminate W;
+      change (Old.only_optionals t) with (only_optionals t).
+    - apply andb_true_iff in W as [W Wt]. apply andb_true_iff in W as [Wn Wo]. rewrite (IHt _ _ _ Wt), andb_true_r.
+      assert (A : match f_len f with LRef l => mem_str l (map fst lens) | _ => true end = true).
+      { destruct (f_len f) as [| |l]; try reflexivity. destruct (f_name f); apply andb_true_iff in Wn as [_ Wn];
+          [apply (ref_ok_mem _ _ _ Wn) | discriminate Wn]. }
+      assert (B : match f_name f, f_hard f with None, None => false | _, _ => true end = true).
+      { destruct (f_name f); [reflexivity|]. destruct (f_hard f); [reflexivity | discriminate Wn]. }
+      rewrite A, B. cbn [andb]. destruct (f_optional f).
+      + apply andb_true_iff in Wo as [Wo _]. apply andb_true_iff in Wo as [Wo W5]. apply andb_true_iff in Wo as [Wo W4].
+        apply andb_true_iff in Wo as [Wo W3]. rewrite Wo, W3, (closed_ty_mono _ _ _ W4). cbn [andb].
+        destruct (f_ty f); try reflexivity. apply Hwc. exact W5.
+      + destruct (f_ty f); try (apply closed_ty_mono; exact Wo). apply Hwc. exact Wo.
+    - apply andb_true_iff in W as [W Wt]. apply andb_true_iff in W as [W Wc]. apply andb_true_iff in W as [W We].
+      apply andb_true_iff in W as [W Wo]. apply andb_true_iff in W as [Wd Wn].
+      rewrite (IHt _ _ _ Wt), Wd, andb_true_r. cbn [andb].
+      assert (N : match f_name f with Some _ => true | None => false end = true) by (destruct (f_name f); [reflexivity | discriminate Wn]).
+      assert (O : (if f_optional f then last && only_optionals t else true) = true).
+      { destruct (f_optional f); [|reflexivity]. apply andb_true_iff in Wo as [Wo _]. exact Wo. }
+      assert (El : match f_ty f with EStruct n => wc' n false | ty => Old.closed_ty wc' ty LNone end = true).
+      { destruct (f_ty f); try exact We. apply Hwc. exact We. }
+      rewrite N, O, El. cbn [andb]. destruct cnt as [|s|]; try exact Wc.
+      destruct (f_len f) as [|k|l]; try exact Wc. destruct (f_name f); [apply (ref_ok_mem _ _ _ Wc) | discriminate Wc].
+    - apply andb_true_iff in W as [W Wt]. apply andb_true_iff in W as [Wopt Wfr]. destruct rb as [fr|]; [|discriminate Wt].
+      rewrite Wopt. unfold fresh in Wfr. apply andb_true_iff in Wfr as [Wfr _]. rewrite Wfr. cbn [andb].
+      apply (IHt _ _ _ Wt).
+    - apply andb_true_iff in W as [W Wt]. apply andb_true_iff in W as [_ Wc]. rewrite (IHt _ _ _ Wt), andb_true_r.
+      rewrite forallb_forall in *. intros c Hc. specialize (Wc c Hc). destruct (c_cls c); [apply Hwc; exact Wc | reflexivity].
+  Qed.
+End Stronger.
+
+Lemma wire_class_stronger E : forall fuel cls last, wire_class fuel E cls last = true -> Old.wire_class fuel E cls last = true.
+Proof.
+  induction fuel as [|fuel IHf]; intros cls last W; [discriminate W|]. cbn [wire_class Old.wire_class] in *.
+  destruct (env_find E cls) as [d|]; [|discriminate W]. unfold wire_body in W. unfold Old.wire_body.
+  assert (Hgen : wire_instrs (size_of (S (List.length E)) E) (wire_class fuel E) (progress_class (S (List.length E)) E) last [] [] (sd_body d) = true ->
+                 Old.wire_instrs (Old.size_of (S (List.length E)) E) (Old.wire_class fuel E) (Old.progress_class (S (List.length E)) E) last [] (sd_body d) = true).
+  { intros H. apply (wire_instrs_stronger _ _ _ _ IHf) in H. cbn [map] in H.
+    revert H. generalize (sd_body d) (@nil string). intros is lens H.
+    assert (Hext : forall s1 s2 p1 p2 is lens last, (forall n, s1 n = s2 n) -> (forall n, p1 n = p2 n) ->
+              Old.wire_instrs s1 (Old.wire_class fuel E) p1 last lens is = Old.wire_instrs s2 (Old.wire_class fuel E) p2 last lens is).
+    { intros s1 s2 p1 p2 is0. induction is0 as [|i t IHt]; intros lens0 last0 Hs Hp; [reflexivity|].
+      destruct i; cbn [Old.wire_instrs]; rewrite ?(IHt _ _ Hs Hp); try reflexivity.
+      - unfold Old.elem_size. destruct count; try reflexivity.
+        + assert (Ht : Old.ty_size s1 (f_ty f) LNone = Old.ty_size s2 (f_ty f) LNone) by (destruct (f_ty f); cbn; auto). rewrite Ht. reflexivity.
+        + destruct (f_ty f); try reflexivity. rewrite Hp. reflexivity. }
+    rewrite (Hext _ (size_of (S (List.length E)) E) _ (progress_class (S (List.length E)) E)); [exact H | |].
+    - intros n. apply size_of_refactor.
+    - intros n. apply progress_class_refactor. }
+  unfold sole_dummy in W. destruct (sd_body d) as [|i [|j t]]; try (apply Hgen; exact W); destruct i; try (apply Hgen; exact W);
+    destruct guarded; try (apply Hgen; exact W). destruct ty; try discriminate W; reflexivity.
+Qed.
+
+Theorem wire_ok_stronger E cls : wire_ok E cls = true -> Old.wire_ok E cls = true.
+Proof. apply wire_class_stronger. Qed.
+Print Assumptions wire_ok_stronger.
+
+Section StrongerObj.
+  Variables (vo vo' : string -> value -> bool).
+  Hypothesis Hvo : forall n x, vo n x = true -> vo' n x = true.
+
+  Lemma obj_value_stronger ty len padded v : obj_value vo ty len padded v = true -> Old.obj_value vo' ty len padded v = true.
+  Proof. destruct ty; cbn [obj_value Old.obj_value]; try (intros H; exact H). apply Hvo. Qed.
+
+  Lemma obj_instrs_stronger flds : forall is rmo, obj_instrs vo flds is rmo = true -> Old.obj_instrs vo' flds is rmo = true.
+  Proof.
+    induction is as [|i t IHt]; intros rmo O; [reflexivity|].
+    destruct i as [f|f dl tr cnt|name lt off opt of rb|ty lit g|fld cs|b|]; cbn [obj_instrs Old.obj_instrs] in *; try (apply IHt; exact O);
+      change Old.nonempty_value with nonempty_value.
+    - destruct (f_name f) as [n|]; [|apply IHt; exact O]. destruct (assoc flds n) as [v|]; [|discriminate O].
+      apply andb_true_iff in O as [Oh O]. destruct (f_optional f).
+      + destruct (is_none v); [apply IHt; exact O|]. apply andb_true_iff in O as [O O5]. apply andb_true_iff in O as [O O4].
+        rewrite O, (obj_value_stronger _ _ _ _ O4), (IHt _ O5). reflexivity.
+      + apply andb_true_iff in O as [O O3]. apply andb_true_iff in O as [O1 O2].
+        rewrite O1, (obj_value_stronger _ _ _ _ O2), (IHt _ O3), !andb_true_r. unfold hard_agrees in Oh.
+        destruct (f_hard f) as [lit|]; [|reflexivity]. destruct (lit_value (f_ty f) lit); [reflexivity | discriminate Oh].
+    - destruct (f_name f) as [n|]; [|discriminate O]. destruct (assoc flds n) as [v|]; [|discriminate O].
+      destruct v as [| | | | |elems|]; try discriminate O.
+      + apply andb_true_iff in O as [O1 O2]. rewrite O1, (IHt _ O2). reflexivity.
+      + apply andb_true_iff in O as [O O5]. apply andb_true_iff in O as [O O4]. apply andb_true_iff in O as [O _].
+        rewrite O, (IHt _ O5), !andb_true_r. cbn [andb]. rewrite forallb_forall in *. intros e He. apply obj_value_stronger. apply (O4 e He).
+    - apply andb_true_iff in O as [O Ot]. rewrite O, (IHt _ Ot). reflexivity.
+    - apply andb_true_iff in O as [O Ot]. rewrite (IHt _ Ot), andb_true_r.
+      destruct (assoc flds fld) as [fv|]; [|discriminate O]. destruct fv; try discriminate O.
+      destruct (assoc flds (fld ++ "_data")) as [dv|]; [|discriminate O].
+      destruct (find_case cs (Some z)) as [c|]; [|exact O]. destruct (c_cls c) as [cls|]; [|exact O].
+      destruct (obj_class dv); [|discriminate O]. apply andb_true_iff in O as [O1 O2]. rewrite O1, (Hvo _ _ O2). reflexivity.
+  Qed.
+End StrongerObj.
+
+Theorem valid_obj_stronger E : forall fuel cls v, valid_obj fuel E cls v = true -> Old.valid_obj fuel E cls v = true.
+Proof.
+  induction fuel as [|fuel IHf]; intros cls v V; [discriminate V|]. cbn [valid_obj Old.valid_obj] in *.
+  destruct (env_find E cls) as [d|]; [|discriminate V]. destruct v; try discriminate V.
+  apply andb_true_iff in V as [V O]. apply andb_true_iff in V as [Vc _]. rewrite Vc. cbn [andb].
+  apply (obj_instrs_stronger _ _ IHf _ _ _ O).
+Qed.
+Print Assumptions valid_obj_stronger.
